@@ -1138,3 +1138,542 @@ Section ShardedSet.
     intros Hok. destruct (HQ Hok) as (sid & Hsid & [-> | ->]); exists sid; (split; [exact Hsid|]); cbn [ss_inv ps_inv] in HI; [left; exact (proj1 HI)|right; exact HI].
   Qed.
 End ShardedSet.
+
+(** * A plain cache directory: touch reports presence truthfully *)
+Lemma walk_ext f g : (forall x, name_of f x = name_of g x) -> (forall i, inode_of f i = inode_of g i) ->
+  forall comps cur, walk f cur comps = walk g cur comps.
+Proof.
+  intros Hn Hi. assert (Hd : forall p, is_dir_at f p = is_dir_at g p).
+  { intros [|x p]; [reflexivity|]. unfold is_dir_at. rewrite Hn. destruct (name_of g (x :: p)); [rewrite Hi|]; reflexivity. }
+  induction comps as [|c comps IH]; intros cur; cbn [walk]; [reflexivity|]. rewrite Hd.
+  destruct (is_dir_at g cur) as [[|]|]; try reflexivity. destruct (too_long c); [reflexivity|].
+  destruct (_ || _)%bool; [apply IH|]. destruct (String.eqb c ".."); apply IH.
+Qed.
+Lemma resolve_ext f g p : (forall x, name_of f x = name_of g x) -> (forall i, inode_of f i = inode_of g i) -> resolve f p = resolve g p.
+Proof. intros Hn Hi. unfold resolve. destruct (has_abs p); [reflexivity|]. destruct (path_max_exceeded p); [reflexivity|]. destruct (flatten p); [|reflexivity]. apply walk_ext; assumption. Qed.
+
+Lemma open_answers f e p a i : resolve f p = inl p -> name_of f p = Some i -> inode_of f i <> None -> a <> RDWR ->
+  (a = WRONLY -> forall x, inode_of f i = Some x -> i_dir x = false) ->
+  exists d, snd (sem f e (COpen p a)) = RFd d.
+Proof.
+  intros Hr Hi Hino Ha Hdir. cbn [sem]. rewrite Hr, Hi. unfold with_inode. destruct (inode_of f i) as [x|] eqn:Hx; [|congruence].
+  destruct a; try congruence.
+  - cbn [andb]. rewrite andb_false_r. rewrite (alloc_fd_eq f). eexists. reflexivity.
+  - rewrite (Hdir eq_refl x eq_refl). cbn [andb]. rewrite (alloc_fd_eq f). eexists. reflexivity.
+Qed.
+
+Lemma fdof_afd_new f x : fd_of (afd f x) (next_fd f) = Some x.
+Proof. Transparent afd. unfold afd, alloc_fd, fd_of. cbn. rewrite Nat.eqb_refl. reflexivity. Qed.
+Global Opaque afd.
+
+Inductive tst := T0 | TA1 (r1 : res) | TB1 (ok : bool) | TA2 (r1 r2 : res) | TB2 (ok : bool).
+
+Section PlainTouch.
+  Variable d : cdir.
+  Variable name : string.
+  Notation dst := (cd_base d ++ [name]).
+  Hypothesis Hbase : plainp (cd_base d) = true.
+  Hypothesis Hname : valid_name name = true.
+
+  Definition is_rfd' (r : res) : bool := match r with RFd _ => true | _ => false end.
+  Definition stamps (r0 : res) (c : call) : bool := match r0, c with RFd fd, CFutimens fd' _ _ => Nat.eqb fd fd' | _, _ => false end.
+  Definition is_close' (c : call) : bool := match c with CClose _ => true | _ => false end.
+
+  (** TA1 r1: the read-only open was answered r1; TB1 ok: the descriptor it returned was
+      stamped (ok = the futimens was accepted); TA2 / TB2: the same for the write-only retry *)
+  Definition pt_step (s : tst) (ev : event) : option tst :=
+    match s with
+    | T0 => match ev with
+            | EvNow _ => Some T0
+            | EvCall (COpen p RDONLY) r => if path_eqb p dst then Some (TA1 r) else None
+            | _ => None
+            end
+    | TA1 r1 => match ev with
+                | EvCall c r =>
+                    if stamps r1 c then Some (TB1 (accepted r))
+                    else match c with
+                         | COpen p WRONLY => if (negb (is_rfd' r1) && path_eqb p dst)%bool then Some (TA2 r1 r) else None
+                         | _ => None
+                         end
+                | _ => Some s
+                end
+    | TA2 r1 r2 => match ev with
+                   | EvCall c r => if stamps r2 c then Some (TB2 (accepted r)) else None
+                   | _ => Some s
+                   end
+    | TB1 _ | TB2 _ => match ev with EvCall c _ => if is_close' c then Some s else None | _ => Some s end
+    end.
+
+  Definition tpost (r : outcome bool) (s' : tst) : Prop :=
+    match r with
+    | Ok true => s' = TB1 true \/ s' = TB2 true
+    | Ok false => (exists r1 e, is_rfd' r1 = false /\ s' = TA2 r1 (RErr e)) \/ s' = TB1 false \/ s' = TB2 false
+    | _ => True
+    end.
+
+  Definition tres (x : outcome unit) : outcome bool :=
+    match x with Ok _ => Ok true | Err e => if is_absent e then Ok false else Err e | Panic => Panic end.
+
+  Lemma pt_go fd t s r0 : r0 = RFd fd -> (s = TA1 r0 \/ exists r1, is_rfd' r1 = false /\ s = TA2 r1 r0) ->
+    wpv pt_step (x <- unit_call (CFutimens fd (Some t) None) ;; quiet (CClose fd) ;;; Ret x) (fun x s' => tpost (tres x) s') s.
+  Proof.
+    intros -> Hs. unfold unit_call, quiet. cbn [bind call1]. apply wpv_call. intros r _.
+    assert (Hst : pt_step s (EvCall (CFutimens fd (Some t) None) r) = Some (match s with TA1 _ => TB1 (accepted r) | _ => TB2 (accepted r) end)).
+    { destruct Hs as [-> |(r1 & _ & ->)]; cbn [pt_step stamps]; rewrite Nat.eqb_refl; reflexivity. }
+    rewrite Hst. apply wpv_call. intros r2 _.
+    assert (Hcl : forall s1, (exists ok, s1 = TB1 ok \/ s1 = TB2 ok) -> pt_step s1 (EvCall (CClose fd) r2) = Some s1) by (intros s1 (ok & [-> | ->]); reflexivity).
+    destruct Hs as [-> |(r1 & _ & ->)].
+    - rewrite Hcl by eauto. apply wpv_ret. destruct r as [| | | | |er]; cbn [accepted tres tpost]; auto. destruct (is_absent (OsErr er)); cbn; auto.
+    - rewrite Hcl by eauto. apply wpv_ret. destruct r as [| | | | |er]; cbn [accepted tres tpost]; auto. destruct (is_absent (OsErr er)); cbn; auto.
+  Qed.
+
+  Theorem pt_cd_touch : wpv pt_step (cd_touch d name) tpost T0.
+  Proof.
+    unfold cd_touch. rewrite (validate_ok name Hname). unfold touch, wpv. cbn [wp]. intros t. unfold after. cbn [lift sane_ev pt_step option_map].
+    change (wpv pt_step (r <- set_times dst (Some t) None ;; Ret (tres r)) tpost T0).
+    apply wpv_bind. unfold set_times. cbn [bind call1]. apply wpv_call. intros r1 _. cbn [pt_step]. rewrite path_eqb_refl.
+    assert (Hfin : forall x s', tpost (tres x) s' -> wpv pt_step (Ret (tres x)) tpost s') by (intros x s' H; apply wpv_ret, H).
+    assert (Hsecond : is_rfd' r1 = false ->
+              wpv pt_step (r2 <- call1 (COpen dst WRONLY) ;;
+                           match r2 with
+                           | RFd fd => x <- unit_call (CFutimens fd (Some t) None) ;; quiet (CClose fd) ;;; Ret x
+                           | RErr e => Ret (Err (OsErr e))
+                           | _ => Ret (Err (OsErr EINVAL))
+                           end)
+                (fun a s' => wpv pt_step (Ret (tres a)) tpost s') (TA1 r1)).
+    { intros Hr1. cbn [bind call1]. apply wpv_call. intros r2 _. cbn [pt_step stamps]. 
+      assert (Hns : stamps r1 (COpen dst WRONLY) = false) by (destruct r1; reflexivity). rewrite Hns, Hr1, path_eqb_refl. cbn [negb andb].
+      destruct r2 as [|fd2| | | |e2]; try (apply wpv_ret, wpv_ret; cbn; exact I).
+      - eapply wpv_mono; [|apply (pt_go fd2 t (TA2 r1 (RFd fd2)) (RFd fd2) eq_refl)]; [intros x s' H; apply Hfin, H|right; eauto].
+      - apply wpv_ret, wpv_ret. cbn [tres]. destruct (is_absent (OsErr e2)); cbn; [left; eauto|exact I]. }
+    destruct r1 as [|fd| | | |e]; try (apply Hsecond; reflexivity).
+    eapply wpv_mono; [|apply (pt_go fd t (TA1 (RFd fd)) (RFd fd) eq_refl)]; [intros x s' H; apply Hfin, H|left; reflexivity].
+  Qed.
+
+  (** ** meaning, without a fault oracle *)
+  Variable f0 : fs.
+  Hypothesis Hreach : forall i, name_of f0 dst = Some i -> resolve f0 dst = inl dst /\ inode_of f0 i <> None.
+
+  Definition fd_live (f : fs) (fd : nat) : Prop := exists x, fd_of f fd = Some x /\ inode_of f (fd_ino x) <> None.
+  Definition same_names (f : fs) : Prop := forall x, name_of f x = name_of f0 x.
+
+  Definition pt_inv (s : tst) (f : fs) : Prop :=
+    match s with
+    | T0 => same_names f /\ forall i, inode_of f i = inode_of f0 i
+    | TA1 r1 => same_names f /\
+                match r1 with
+                | RFd fd => fd_live f fd /\ name_of f0 dst <> None
+                | _ => (forall i, inode_of f i = inode_of f0 i) /\ name_of f0 dst = None
+                end
+    | TB1 ok => same_names f /\ ok = true /\ name_of f0 dst <> None
+    | TA2 r1 r2 => same_names f /\ name_of f0 dst = None /\ is_rfd' r2 = false
+    | TB2 _ => False
+    end.
+
+  Lemma open_live f e p a fd : snd (sem f e (COpen p a)) = RFd fd -> fd_live (fst (sem f e (COpen p a))) fd.
+  Proof.
+    cbn [sem]. unfold with_inode. destruct (resolve f p) as [cp|]; [|discriminate]. destruct (name_of f cp) as [i|]; [|discriminate].
+    destruct (inode_of f i) as [x|] eqn:Hx; [|discriminate]. destruct (i_dir x && _)%bool; [discriminate|].
+    rewrite (alloc_fd_eq f). cbn [fst snd]. intros H. injection H as <-. unfold fd_live.
+    eexists. split; [apply fdof_afd_new|]. cbn [fd_ino]. rewrite ino_alloc_fd. congruence.
+  Qed.
+
+  Lemma futimens_live f e fd a m : fd_live f fd -> snd (sem f e (CFutimens fd a m)) = ROk.
+  Proof. intros (x & Hx & Hi). cbn [sem]. rewrite Hx. unfold with_inode. destruct (inode_of f (fd_ino x)); [reflexivity|congruence]. Qed.
+
+  Lemma pt_inv_step s ev s' f f' : pt_step s ev = Some s' -> astep f ev f' -> names_plain f -> pt_inv s f -> pt_inv s' f'.
+  Proof.
+    intros Hm Ha _ HI. pose proof (astep_step1 _ _ _ Ha) as H1. pose proof (dst_plain d name Hbase Hname) as Hdp.
+    assert (Hsil : forall x, (match ev with EvCall _ _ => False | _ => True end) -> name_of f' x = name_of f x).
+    { intros x Hev. apply (step1_spares _ _ _ x H1). destruct ev; try exact I. destruct Hev. }
+    destruct s as [|r1|ok|r1 r2|ok].
+    - destruct HI as (Hn & Hi). destruct ev as [c r|t| | | | ]; cbn [pt_step] in Hm; try discriminate.
+      + destruct c; try discriminate. destruct a; try discriminate. destruct (path_eqb p dst) eqn:Hp; [|discriminate]. apply path_eqb_eq in Hp. subst p.
+        injection Hm as <-. destruct Ha as (e & -> & Hr). cbn [pt_inv].
+        split; [intros y; rewrite (sem_spares f e (COpen dst RDONLY) y eq_refl); apply Hn|].
+        destruct r as [|fd| | | |er].
+        2:{ symmetry in Hr. split; [apply open_live, Hr|]. destruct (open_effect f e dst RDONLY fd Hdp Hr) as (_ & H). rewrite Hn in H. exact H. }
+        all: assert (Hunb : name_of f0 dst = None)
+          by (destruct (name_of f0 dst) as [i|] eqn:Hb; [|reflexivity]; exfalso; destruct (Hreach i eq_refl) as (Hres & Hino);
+              destruct (open_answers f e dst RDONLY i) as (dd & Hdd);
+              [rewrite (resolve_ext f f0 dst Hn Hi); exact Hres|rewrite Hn; exact Hb|rewrite Hi; exact Hino|discriminate|discriminate|congruence]).
+        all: split; [|exact Hunb]; intros i; rewrite <- Hi;
+          (assert (Hsame : fst (sem f e (COpen dst RDONLY)) = f); [|rewrite Hsame; reflexivity]);
+          cbn [sem]; unfold with_inode; cbn [sem] in Hr; unfold with_inode in Hr;
+          destruct (resolve f dst) as [cp|]; [|reflexivity]; destruct (name_of f cp) as [j|]; [|reflexivity]; destruct (inode_of f j) as [y|]; [|reflexivity];
+          destruct (i_dir y && _)%bool; [reflexivity|]; rewrite (alloc_fd_eq f) in Hr; discriminate Hr.
+      + injection Hm as <-. cbn [astep] in Ha. subst f'. cbn [pt_inv]. split; [intros y; autorewrite with fseff; apply Hn|intros i; autorewrite with fseff; apply Hi].
+    - destruct ev as [c r|t|wt b|n x|fr|tg pl]; cbn [pt_step] in Hm.
+      2-6: injection Hm as <-; cbn [pt_inv] in *; destruct HI as (Hn & Hr); (split; [intros y; rewrite (Hsil y I); apply Hn|]);
+           destruct r1; try exact Hr; cbn [astep] in Ha; subst f'; try exact Hr; (destruct Hr as (Hl & Hb) || idtac);
+           try (split; [|exact Hb]; first [exact Hl | intros i; autorewrite with fseff; apply Hl]).
+      destruct HI as (Hn & Hr). destruct Ha as (e & -> & Hres).
+      destruct (stamps r1 c) eqn:Hst.
+      + injection Hm as <-. destruct r1 as [|fd| | | |]; try discriminate. destruct c; try discriminate. cbn [stamps] in Hst. apply Nat.eqb_eq in Hst. subst fd0.
+        destruct Hr as (Hl & Hb). cbn [pt_inv]. split; [intros y; rewrite (sem_spares f e (CFutimens fd atime mtime) y eq_refl); apply Hn|].
+        rewrite Hres, (futimens_live f e fd atime mtime Hl). split; [reflexivity|exact Hb].
+      + destruct c; try discriminate. destruct a; try discriminate.
+        destruct (negb (is_rfd' r1) && path_eqb p dst)%bool eqn:Hp; [|discriminate]. apply andb_true_iff in Hp. destruct Hp as (Hnr & Hp).
+        apply path_eqb_eq in Hp. subst p. injection Hm as <-. cbn [pt_inv].
+        assert (Hunb : name_of f0 dst = None) by (destruct r1; try discriminate; exact (proj2 Hr)).
+        split; [intros y; rewrite (sem_spares f e (COpen dst WRONLY) y eq_refl); apply Hn|]. split; [exact Hunb|].
+        destruct r as [|fd| | | |]; try reflexivity. exfalso. symmetry in Hres.
+        destruct (open_effect f e dst WRONLY fd Hdp Hres) as (_ & H). rewrite Hn in H. contradiction.
+    - destruct HI as (Hn & Hok & Hb). destruct ev as [c r|t|wt b|n x|fr|tg pl]; cbn [pt_step] in Hm.
+      2-6: injection Hm as <-; cbn [pt_inv]; (split; [intros y; rewrite (Hsil y I); apply Hn|auto]).
+      destruct (is_close' c) eqn:Hc; [|discriminate]. injection Hm as <-. cbn [pt_inv]. split; [|auto].
+      intros y. rewrite (step1_spares _ _ _ y H1); [apply Hn|]. destruct c; try discriminate; reflexivity.
+    - destruct HI as (Hn & Hb & Hr2). destruct ev as [c r|t|wt b|n x|fr|tg pl]; cbn [pt_step] in Hm.
+      2-6: injection Hm as <-; cbn [pt_inv]; (split; [intros y; rewrite (Hsil y I); apply Hn|auto]).
+      destruct (stamps r2 c) eqn:Hst; [|discriminate]. destruct r2; discriminate.
+    - destruct HI.
+  Qed.
+
+  (** Without a fault oracle, touch changes no binding and reports presence
+      truthfully: "touched" means the name was bound, "absent" that it was not. *)
+  Theorem plain_touch_truthful w o : w_fs w = f0 -> o_fault o = None -> names_plain f0 ->
+    let '(r, w', _, _) := run (cd_touch d name) w o in
+    (forall x, name_of (w_fs w') x = name_of f0 x) /\
+    (r = Ok true -> name_of f0 dst <> None) /\ (r = Ok false -> name_of f0 dst = None).
+  Proof.
+    intros Hw Hnf Hpl.
+    assert (Hpl0 : names_plain (w_fs w)) by (rewrite Hw; exact Hpl).
+    assert (HI0 : pt_inv T0 (w_fs w)) by (cbn [pt_inv]; rewrite Hw; split; intros ?; reflexivity).
+    pose proof (sane_run_nf pt_step (cd_touch d name) _ T0 pt_inv pt_cd_touch pt_inv_step w o Hnf Hpl0 HI0) as H.
+    destruct (run (cd_touch d name) w o) as [[[r w'] o'] tr]. destruct H as (s' & HQ & HI & _).
+    assert (Hn : same_names (w_fs w')) by (destruct s'; cbn [pt_inv] in HI; try exact (proj1 HI); destruct HI).
+    split; [exact Hn|]. split; intros ->; cbn [tpost] in HQ.
+    - destruct HQ as [-> | ->]; cbn [pt_inv] in HI; [exact (proj2 (proj2 HI))|destruct HI].
+    - destruct HQ as [(r1 & e & _ & ->)|[-> | ->]]; cbn [pt_inv] in HI; [exact (proj1 (proj2 HI))|destruct HI as (_ & Hok & _); discriminate|destruct HI].
+  Qed.
+End PlainTouch.
+
+(** * The stack API over a plain write cache, no read-only caches, no checker *)
+Section StackPlainGet.
+  Variable cfg : stack_cfg.
+  Variable dir : path.
+  Variable cap : N.
+  Hypothesis Hw : s_writer cfg = Some (FPlain dir cap).
+  Hypothesis Hrd : s_readers cfg = [].
+  Hypothesis Hck : s_checker cfg = None.
+  Variable k : key.
+  Notation d := (plain_cdir dir cap).
+  Notation dst := (dir ++ [k_name k]).
+  Hypothesis Hbase : plainp dir = true.
+  Hypothesis Hname : valid_name (k_name k) = true.
+
+  Lemma pg_cache_get :
+    wpv (pg_step d (k_name k)) (cache_get cfg k)
+        (fun r s' => exists r0, s' = Some r0 /\
+                     match r with Ok (Some fd) => r0 = RFd fd | Ok None => exists e, r0 = RErr e | _ => True end) None.
+  Proof.
+    unfold cache_get. rewrite Hw, Hrd. cbn [f_get ro_get]. apply wpv_try.
+    eapply wpv_mono; [|apply (pg_cd_get d (k_name k) Hname)].
+    intros [[fd|]|e|] s' (r0 & -> & Hr); try (eexists; split; [reflexivity|exact I]).
+    - unfold with_checked. rewrite Hck. cbn [try bind]. apply wpv_ret. eexists. split; [reflexivity|exact Hr].
+    - apply wpv_ret. eexists. split; [reflexivity|exact Hr].
+  Qed.
+
+  Theorem cache_get_reads f0 w o : w_fs w = f0 -> names_plain f0 ->
+    let '(r, w', _, _) := run (cache_get cfg k) w o in
+    (forall x, name_of (w_fs w') x = name_of f0 x) /\
+    (forall fd, r = Ok (Some fd) -> fdino (w_fs w') fd = name_of f0 dst /\ name_of f0 dst <> None).
+  Proof.
+    intros Hw0 Hpl.
+    assert (Hpl0 : names_plain (w_fs w)) by (rewrite Hw0; exact Hpl).
+    pose proof (sane_run (pg_step d (k_name k)) (cache_get cfg k) _ None (pg_inv d (k_name k) f0) pg_cache_get
+                  (pg_inv_step d (k_name k) Hbase Hname f0) w o Hpl0 Hw0) as H.
+    destruct (run (cache_get cfg k) w o) as [[[r w'] o'] tr]. destruct H as (s' & (r0 & -> & HQ) & HI & _).
+    cbn [pg_inv] in HI. destruct HI as (Hn & Hr). split; [exact Hn|]. intros fd ->. subst r0. exact Hr.
+  Qed.
+
+  (** [Cache::set] then [Cache::get]: a hit is the set's inode. *)
+  Theorem cache_set_then_get v i0 w o o2 : plainp v = true -> (forall q, v <> dir ++ q) -> (forall q, dir <> v ++ q) ->
+    names_plain (w_fs w) -> name_of (w_fs w) v = Some i0 ->
+    let '(r, w1, _, _) := run (cache_set cfg k v) w o in
+    is_ok r = true ->
+    let '(r2, w2, _, _) := run (cache_get cfg k) w1 o2 in
+    forall fd, r2 = Ok (Some fd) -> fdino (w_fs w2) fd = Some i0.
+  Proof.
+    intros Hv Hout Hnanc Hpl Hv0.
+    pose proof (cache_set_binds cfg dir cap Hw k v Hbase Hname Hv Hout Hnanc i0 w o Hpl Hv0) as Hset.
+    pose proof (run_names_plain (cache_set cfg k v) w o Hpl) as Hpl1.
+    destruct (run (cache_set cfg k v) w o) as [[[r w1] o1] tr1]. intros Hok. specialize (Hset Hok).
+    pose proof (cache_get_reads (w_fs w1) w1 o2 eq_refl Hpl1) as Hget.
+    destruct (run (cache_get cfg k) w1 o2) as [[[r2 w2] o3] tr2]. destruct Hget as (_ & Hfd).
+    intros fd Hr. destruct (Hfd fd Hr) as (H1 & _). rewrite H1. exact Hset.
+  Qed.
+End StackPlainGet.
+
+(** * File contents: the write and lookup paths change none *)
+Lemma step1_keeps_data f c r f' i D : calm c = true -> step1 f (EvCall c r) f' ->
+  data f i = Some D -> i < next_ino f -> data f' i = Some D /\ i < next_ino f'.
+Proof.
+  intros Hc H1 HD Hi.
+  assert (Hsem : forall e, data (fst (sem f e c)) i = Some D /\ i < next_ino (fst (sem f e c))).
+  { intros e. split.
+    - apply sem_keeps_data; [exact HD|exact Hi| |destruct c; try reflexivity; discriminate].
+      intros dd Hd. destruct c; cbn [data_dst] in Hd; try discriminate Hd; discriminate Hc.
+    - pose proof (sem_counters f e c) as (_ & Hn). lia. }
+  cbn [step1] in H1. destruct H1 as [(e & -> & _)|(er & _ & [->|(_ & e & ->)])]; [apply Hsem|auto|apply Hsem].
+Qed.
+
+Lemma steps_keep_data f tr f' : steps step1 f tr f' ->
+  Forall (fun ev => match ev with EvCall c _ => calm c = true | _ => True end) tr ->
+  forall i D, data f i = Some D -> i < next_ino f -> data f' i = Some D /\ i < next_ino f'.
+Proof.
+  induction 1 as [f|f ev f1 tr f2 H1 Hs IH]; intros Hall i D HD Hi; [auto|].
+  inversion Hall as [|? ? Hev Hrest]; subst.
+  assert (H : data f1 i = Some D /\ i < next_ino f1).
+  { destruct ev as [c r|t| | | | ]; [exact (step1_keeps_data f c r f1 i D Hev H1 HD Hi)|cbn [step1] in H1; subst f1; auto..]. }
+  destruct H as (H2 & H3). exact (IH Hrest i D H2 H3).
+Qed.
+
+Theorem calm_run_keeps_data {A} (p : prog A) Q : allc calm p Q -> forall w o i D,
+  data (w_fs w) i = Some D -> i < next_ino (w_fs w) ->
+  let '(_, w', _, _) := run p w o in data (w_fs w') i = Some D.
+Proof.
+  intros Hp w o i D HD Hi. pose proof (allc_run calm p Q Hp w o) as Hr. pose proof (run_steps p w o) as Hs.
+  destruct (run p w o) as [[[a w'] o'] tr]. destruct Hr as (_ & Hall).
+  exact (proj1 (steps_keep_data _ _ _ Hs Hall i D HD Hi)).
+Qed.
+
+(** [Cache::set] then [Cache::get], down to the bytes: a hit is a descriptor on a
+    file whose contents are exactly what the source file held when set was called. *)
+Theorem cache_set_then_get_bytes cfg dir cap k v i0 D w o o2 :
+  s_writer cfg = Some (FPlain dir cap) -> s_readers cfg = [] -> s_checker cfg = None ->
+  plainp dir = true -> valid_name (k_name k) = true -> plainp v = true ->
+  (forall q, v <> dir ++ q) -> (forall q, dir <> v ++ q) ->
+  names_plain (w_fs w) -> name_of (w_fs w) v = Some i0 ->
+  data (w_fs w) i0 = Some D -> i0 < next_ino (w_fs w) ->
+  let '(r, w1, _, _) := run (cache_set cfg k v) w o in
+  is_ok r = true ->
+  let '(r2, w2, _, _) := run (cache_get cfg k) w1 o2 in
+  forall fd, r2 = Ok (Some fd) -> fdino (w_fs w2) fd = Some i0 /\ data (w_fs w2) i0 = Some D.
+Proof.
+  intros Hw Hrd Hck Hb Hn Hv Ho Ha Hpl Hv0 HD Hi.
+  pose proof (cache_set_then_get cfg dir cap Hw Hrd Hck k Hb Hn v i0 w o o2 Hv Ho Ha Hpl Hv0) as H1.
+  pose proof (calm_run_keeps_data _ _ (cm_cache_set cfg k v) w o i0 D HD Hi) as H2.
+  assert (H3 : let '(_, w1, _, _) := run (cache_set cfg k v) w o in i0 < next_ino (w_fs w1)).
+  { pose proof (allc_run calm _ _ (cm_cache_set cfg k v) w o) as Hr. pose proof (run_steps (cache_set cfg k v) w o) as Hs.
+    destruct (run (cache_set cfg k v) w o) as [[[a w1] o1] tr]. destruct Hr as (_ & Hall).
+    exact (proj2 (steps_keep_data _ _ _ Hs Hall i0 D HD Hi)). }
+  destruct (run (cache_set cfg k v) w o) as [[[r w1] o1] tr1]. intros Hok. specialize (H1 Hok).
+  assert (Hcm : allc calm (cache_get cfg k) anyc) by (apply cm_cache_get; rewrite Hck; exact I).
+  pose proof (calm_run_keeps_data _ _ Hcm w1 o2 i0 D H2 H3) as H4.
+  destruct (run (cache_get cfg k) w1 o2) as [[[r2 w2] o3] tr2]. intros fd Hr. split; [exact (H1 fd Hr)|exact H4].
+Qed.
+
+(** * Publication is atomic at every crash point *)
+Section Atomic.
+  Variable d : cdir.
+  Variable name : string.
+  Variable v : path.
+  Notation dst := (cd_base d ++ [name]).
+  Hypothesis Hbase : plainp (cd_base d) = true.
+  Hypothesis Hname : valid_name name = true.
+  Hypothesis Hv : plainp v = true.
+  Hypothesis Hout : forall q, v <> cd_base d ++ q.
+  Hypothesis Hnanc : forall q, cd_base d <> v ++ q.
+  Notation pc := (pcls d name v).
+
+  (** the set monitor with the entry's own binding tracked before the rename
+      ([Before]: not yet renamed; [Linked]: renamed) *)
+  Definition pr_step (s : pst) (ev : event) : option pst :=
+    match ev with
+    | EvCall c r =>
+        if is_pub d name v c then match s with Before => Some (if accepted r then Linked else Before) | Linked => Some Linked | Existed => None end
+        else if pc s c then Some s else None
+    | _ => Some s
+    end.
+
+  Lemma pub_not_pc s c : pc s c = true -> is_pub d name v c = false.
+  Proof.
+    destruct c; try reflexivity. unfold pcls, okm, Pvd. cbn [rebind_paths forallb is_pub unl]. rewrite orb_false_r, andb_true_r.
+    destruct (path_eqb p v); [|reflexivity]. cbn [negb andb]. rewrite ?andb_false_r. cbn. discriminate.
+  Qed.
+  Lemma pr_call s c r : pc s c = true -> exists s', pr_step s (EvCall c r) = Some s' /\ s' = s.
+  Proof. intros H. cbn [pr_step]. rewrite (pub_not_pc s c H), H. eauto. Qed.
+  Lemma pr_sil s ev : match ev with EvCall _ _ => True | _ => exists s', pr_step s ev = Some s' /\ s' = s end.
+  Proof. destruct ev; cbn; eauto. Qed.
+  Lemma pr_class s {A} (p : prog A) Q : allc (pc s) p Q -> wpv pr_step p (fun a s' => Q a /\ s' = s) s.
+  Proof.
+    intros H. apply (gclass pr_step (fun s' => s' = s) (pc s)); [| |exact H|reflexivity].
+    - intros s0 c r -> Hc. destruct (pr_call s c r Hc) as (s' & -> & ->). eauto.
+    - intros s0 ev ->. pose proof (pr_sil s ev) as Hs. destruct ev; auto. all: destruct Hs as (s' & -> & ->); eauto.
+  Qed.
+  Lemma pr_fin s : s <> Before -> wpv pr_step (ensure_file_removed v) (fun _ s' => s' = s) s.
+  Proof.
+    intros Hs. eapply wpv_mono; [|apply (pr_class s _ anyc)]; [intros a s' (_ & ->); reflexivity|].
+    apply gc_ensure_file_removed. unfold pcls. cbn [unl]. destruct s; [congruence|..]; rewrite path_eqb_refl; apply orb_true_r.
+  Qed.
+
+  Lemma pr_insert s : s <> Existed ->
+    wpv pr_step (insert_or_update v dst) (fun r s' => (is_ok r = true -> s' = Linked) /\ (s = Linked -> s' = Linked) /\ s' <> Existed) s.
+  Proof.
+    intros Hne. unfold insert_or_update. apply wpv_try.
+    eapply wpv_mono; [|apply (pr_class s _ _ (gc_move_to_back (pc s) (pcls_nr d name v s) v))]. intros [u|e|] s1 (_ & ->); [|split; [discriminate|auto]..].
+    apply wpv_try. eapply wpv_mono; [|apply (pr_class s _ _ (gc_set_read_only (pc s) (pcls_nr d name v s) v))]. intros [u1|e|] s1 (_ & ->); [|split; [discriminate|auto]..].
+    apply wpv_try. unfold unit_call. cbn [bind call1]. apply wpv_call. intros r _.
+    assert (Hp : is_pub d name v (CRename v dst) = true) by (cbn [is_pub]; now rewrite !path_eqb_refl).
+    cbn [pr_step]. rewrite Hp.
+    assert (Hfin : wpv pr_step (ensure_file_removed v) (fun r0 s' => (is_ok r0 = true -> s' = Linked) /\ (s = Linked -> s' = Linked) /\ s' <> Existed) Linked).
+    { eapply wpv_mono; [|apply (pr_fin Linked)]; [|discriminate]. intros a s' ->. repeat split; auto; discriminate. }
+    destruct s; [| |congruence].
+    - destruct r as [| | | | |er]; cbn [accepted bind]; first [apply wpv_ret; exact Hfin | apply wpv_ret; repeat split; discriminate].
+    - destruct r as [| | | | |er]; cbn [accepted bind]; first [apply wpv_ret; exact Hfin | apply wpv_ret; repeat split; auto; discriminate].
+  Qed.
+
+  Theorem pr_cd_set : wpv pr_step (cd_set d name v) (fun r s' => (is_ok r = true -> s' = Linked) /\ s' <> Existed) Before.
+  Proof.
+    unfold cd_set, cd_publish. rewrite (validate_ok name Hname). apply wpv_try.
+    eapply wpv_mono; [|apply (g_maybe_cleanup pr_step (fun s' => s' = Before) (pc Before) (pcls_nr d name v Before))].
+    - intros [ret|e|] s1 ->; [|split; discriminate..].
+      apply wpv_bind. eapply wpv_mono; [|apply (pr_insert Before)]; [|discriminate]. intros r s2 (Hok & _ & Hne2).
+      destruct r as [u|e|]; [apply wpv_ret; split; [intros _; apply Hok; reflexivity|exact Hne2]|..].
+      all: apply wpv_try; rewrite removelast_last;
+        (eapply wpv_mono; [|apply (pr_class s2 _ _ (gc_create_dir_all (pc s2) (pcls_nr d name v s2) (cd_base d) (pcls_mkdir d name v Hbase Hname Hv Hout Hnanc s2)))]);
+        intros [u|e2|] s3 (_ & ->); try (split; [discriminate|exact Hne2]);
+        apply wpv_try; (eapply wpv_mono; [|apply (pr_insert s2 Hne2)]); intros [u2|e3|] s4 (Hok2 & _ & Hne4); try (split; [discriminate|exact Hne4]);
+        apply wpv_ret; split; [intros _; apply Hok2; reflexivity|exact Hne4].
+    - intros s0 c r -> Hc. destruct (pr_call Before c r Hc) as (s' & -> & ->). eauto.
+    - intros s0 ev ->. pose proof (pr_sil Before ev) as Hs. destruct ev; auto. all: destruct Hs as (s' & -> & ->); eauto.
+    - intros n Hn. unfold pcls. destruct (string_dec n name) as [->|Hne]; [cbn [unl]; rewrite path_eqb_refl; apply orb_true_r|].
+      rewrite (okm_unlink_base d Hbase _ n Hn (Pvd_under d name v Hout n Hne)). reflexivity.
+    - intros n Hn. unfold pcls. rewrite (okm_unlink_temp d Hbase _ n Hn); [reflexivity|].
+      unfold Pvd, cd_temp. rewrite <- app_assoc. rewrite (Pv_under d v Hout _ : negb _ = true). cbn. apply negb_true_iff.
+      destruct (path_eqb _ dst) eqn:He; [|reflexivity]. apply path_eqb_eq, app_inv_head in He. discriminate.
+    - reflexivity.
+  Qed.
+
+  (** ** the key's name is bound to the old inode, to nothing, or to the new inode: never to anything else *)
+  Variable i0 : nat.
+  Variable j0 : option nat.
+  Definition at_inv (s : pst) (f : fs) : Prop :=
+    match s with
+    | Before => name_of f v = Some i0 /\ (name_of f dst = j0 \/ name_of f dst = None)
+    | Linked => name_of f dst = Some i0 /\ (name_of f v = Some i0 \/ name_of f v = None)
+    | Existed => (name_of f dst = j0 \/ name_of f dst = None \/ name_of f dst = Some i0) /\ (name_of f v = Some i0 \/ name_of f v = None)
+    end.
+
+  Lemma unl_other f c r f' x y : plainp x = true -> x <> y -> unl x c = true -> step1 f (EvCall c r) f' -> name_of f' y = name_of f y.
+  Proof.
+    intros Hp Hne Hu H1. destruct c; try discriminate. cbn [unl] in Hu. apply path_eqb_eq in Hu. subst p.
+    apply (step1_spares _ _ _ y H1). unfold spares. cbn [rebind_paths forallb]. rewrite Hp. cbn. rewrite andb_true_r. apply negb_true_iff.
+    destruct (path_eqb x y) eqn:He; [apply path_eqb_eq in He; contradiction|reflexivity].
+  Qed.
+  Lemma unl_self f c r f' x : plainp x = true -> unl x c = true -> step1 f (EvCall c r) f' -> name_of f' x = name_of f x \/ name_of f' x = None.
+  Proof.
+    intros Hp Hu H1. destruct c; try discriminate. cbn [unl] in Hu. apply path_eqb_eq in Hu. subst p.
+    destruct (accepted r) eqn:Hacc.
+    - apply step1_ok in H1; [|intros er ->; discriminate]. destruct H1 as (e & -> & Hr).
+      pose proof (sem_res_unit f e (CUnlink x)) as Hx. change (snd (sem f e (CUnlink x)) = ROk \/ exists er, snd (sem f e (CUnlink x)) = RErr er) in Hx.
+      destruct Hx as [Hx|(er & Hx)]; [right; apply unlink_effect; assumption|rewrite Hx in Hr; subst r; discriminate].
+    - destruct r as [| | | | |er]; try discriminate. left. apply (step1_err _ _ _ _ _ H1).
+  Qed.
+
+  Lemma class_step s c r f f' : pc s c = true -> step1 f (EvCall c r) f' -> at_inv s f -> at_inv s f'.
+  Proof.
+    intros Hc H1 HI. pose proof (v_ne_dst d name v Hout) as Hvd. pose proof (dst_plain d name Hbase Hname) as Hdp.
+    unfold pcls in Hc. apply orb_true_iff in Hc. destruct Hc as [Hc|Hc].
+    - destruct (okm_and _ _ c Hc) as (Hc1 & Hc2).
+      destruct s; cbn [at_inv] in *; rewrite ?(step1_spares _ _ _ dst H1 Hc2), ?(step1_spares _ _ _ v H1 Hc1); exact HI.
+    - destruct s; cbn [at_inv] in *.
+      + destruct HI as (Hv0 & Hd). rewrite (unl_other f c r f' dst v Hdp (fun H => Hvd (eq_sym H)) Hc H1). split; [exact Hv0|].
+        destruct (unl_self f c r f' dst Hdp Hc H1) as [He|He]; [rewrite He; exact Hd|right; exact He].
+      + destruct HI as (Hd & Hs). rewrite (unl_other f c r f' v dst Hv Hvd Hc H1). split; [exact Hd|].
+        destruct (unl_self f c r f' v Hv Hc H1) as [He|He]; [rewrite He; exact Hs|right; exact He].
+      + destruct HI as (Hd & Hs). rewrite (unl_other f c r f' v dst Hv Hvd Hc H1). split; [exact Hd|].
+        destruct (unl_self f c r f' v Hv Hc H1) as [He|He]; [rewrite He; exact Hs|right; exact He].
+  Qed.
+
+  Lemma rename_at f r f' : step1 f (EvCall (CRename v dst) r) f' -> accepted r = true ->
+    name_of f v = Some i0 -> name_of f' dst = Some i0 /\ (name_of f' v = Some i0 \/ name_of f' v = None).
+  Proof.
+    intros H1 Hacc Hv0. pose proof (v_ne_dst d name v Hout) as Hvd. pose proof (dst_plain d name Hbase Hname) as Hdp.
+    destruct (accepted_answered _ _ _ _ H1 Hacc) as (e & -> & Hr).
+    pose proof (sem_res_unit f e (CRename v dst)) as Hu. change (snd (sem f e (CRename v dst)) = ROk \/ exists er, snd (sem f e (CRename v dst)) = RErr er) in Hu.
+    destruct Hu as [Hu|(er & Hu)]; [|rewrite Hu in Hr; subst r; discriminate].
+    destruct (rename_effect f e v dst Hv Hdp Hu) as (Hd & _). pose proof (rename_source f e v dst Hv Hdp Hvd Hu) as Hs.
+    rewrite Hd, Hv0. split; [reflexivity|]. destruct Hs as [Hs|Hs]; [right; exact Hs|left; rewrite Hs; exact Hv0].
+  Qed.
+
+  Lemma pr_at_step s ev s' f f' : pr_step s ev = Some s' -> step1 f ev f' -> names_plain f -> at_inv s f -> at_inv s' f'.
+  Proof.
+    intros Hm H1 _ HI.
+    destruct ev as [c r|t|wt b|n x|fr|tg pl]; cbn [pr_step] in Hm.
+    2-6: injection Hm as <-; destruct s; cbn [at_inv] in *; rewrite !(step1_spares _ _ _ _ H1 I); exact HI.
+    destruct (is_pub d name v c) eqn:Hp.
+    - destruct c; try discriminate. cbn [is_pub] in Hp. apply andb_true_iff in Hp. destruct Hp as (Ha & Hb).
+      apply path_eqb_eq in Ha. apply path_eqb_eq in Hb. subst p q.
+      assert (Herr : accepted r = false -> forall x, name_of f' x = name_of f x).
+      { intros Hacc x. destruct r as [| | | | |er]; try discriminate. apply (step1_err _ _ _ _ _ H1). }
+      destruct s; [| |discriminate]; injection Hm as <-; destruct (accepted r) eqn:Hacc; cbn [at_inv] in *.
+      + destruct HI as (Hv0 & _). exact (rename_at f r f' H1 Hacc Hv0).
+      + rewrite !(Herr eq_refl). exact HI.
+      + destruct HI as (Hd & [Hv0|Hv0]).
+        * exact (rename_at f r f' H1 Hacc Hv0).
+        * exfalso. destruct (accepted_answered _ _ _ _ H1 Hacc) as (e & _ & Hr).
+          pose proof (sem_res_unit f e (CRename v dst)) as Hu. change (snd (sem f e (CRename v dst)) = ROk \/ exists er, snd (sem f e (CRename v dst)) = RErr er) in Hu.
+          destruct Hu as [Hu|(er & Hu)]; [|rewrite Hu in Hr; subst r; discriminate].
+          destruct (rename_effect f e v dst Hv (dst_plain d name Hbase Hname) Hu) as (_ & Hn). contradiction.
+      + rewrite !(Herr eq_refl). exact HI.
+    - destruct (pc s c) eqn:Hc; [|discriminate]. injection Hm as <-. exact (class_step s c r f f' Hc H1 HI).
+  Qed.
+
+  (** the same invariant, for the put monitor of [PlainPut] under injected faults
+      (an injected EEXIST may lie, so "existed" claims no more than "old or nothing") *)
+  Lemma pp_at_step s ev s' f f' : pp_step d name v s ev = Some s' -> step1 f ev f' -> names_plain f -> at_inv s f -> at_inv s' f'.
+  Proof.
+    intros Hm H1 _ HI. pose proof (v_ne_dst d name v Hout) as Hvd. pose proof (dst_plain d name Hbase Hname) as Hdp.
+    destruct ev as [c r|t|wt b|n x|fr|tg pl]; cbn [pp_step] in Hm.
+    2-6: injection Hm as <-; destruct s; cbn [at_inv] in *; rewrite !(step1_spares _ _ _ _ H1 I); exact HI.
+    destruct (is_publ d name v c) eqn:Hp.
+    - destruct c; try discriminate. cbn [is_publ] in Hp. apply andb_true_iff in Hp. destruct Hp as (Ha & Hb).
+      apply path_eqb_eq in Ha. apply path_eqb_eq in Hb. subst p q. injection Hm as <-.
+      assert (Herr : forall er, r = RErr er -> forall x, name_of f' x = name_of f x).
+      { intros er -> x. apply (step1_err _ _ _ _ _ H1). }
+      assert (Hok : accepted r = true -> name_of f v = Some i0 -> name_of f' dst = Some i0 /\ name_of f' v = Some i0 /\ name_of f dst = None).
+      { intros Hacc Hv0. destruct (accepted_answered _ _ _ _ H1 Hacc) as (e & -> & Hr).
+        pose proof (sem_res_unit f e (CLink v dst)) as Hu. change (snd (sem f e (CLink v dst)) = ROk \/ exists er, snd (sem f e (CLink v dst)) = RErr er) in Hu.
+        destruct Hu as [Hu|(er & Hu)]; [|rewrite Hu in Hr; subst r; discriminate].
+        destruct (link_effect f e v dst Hv Hdp Hu) as (Hd & _ & Habs). rewrite Hd. repeat split; [exact Hv0| |exact Habs].
+        rewrite (sem_spares f e (CLink v dst) v); [exact Hv0|]. unfold spares. cbn [rebind_paths forallb]. rewrite Hdp. cbn. rewrite andb_true_r.
+        apply negb_true_iff. destruct (path_eqb dst v) eqn:He; [apply path_eqb_eq in He; symmetry in He; contradiction|reflexivity]. }
+      destruct s; cbn [at_inv] in *.
+      + destruct HI as (Hv0 & Hd0). destruct r as [| | | | |er].
+        1-5: destruct (Hok eq_refl Hv0) as (H2 & H3 & _); cbn [at_inv]; split; [exact H2|left; exact H3].
+        destruct er; cbn [at_inv]; rewrite !(Herr _ eq_refl); try (split; [exact Hv0|exact Hd0]); tauto.
+      + destruct r as [| | | | |er]; [..|rewrite !(Herr _ eq_refl); exact HI].
+        all: destruct HI as (Hd & [Hv0|Hv0]); [destruct (Hok eq_refl Hv0) as (_ & _ & Habs); congruence|].
+        all: exfalso; destruct (accepted_answered _ _ _ _ H1 eq_refl) as (e & _ & Hr);
+          pose proof (sem_res_unit f e (CLink v dst)) as Hu; change (snd (sem f e (CLink v dst)) = ROk \/ exists er, snd (sem f e (CLink v dst)) = RErr er) in Hu;
+          destruct Hu as [Hu|(er & Hu)]; try congruence; destruct (link_effect f e v dst Hv Hdp Hu) as (_ & Hn & _); contradiction.
+      + destruct HI as (Hd & Hs). destruct r as [| | | | |er]; [..|rewrite !(Herr _ eq_refl); split; assumption].
+        all: destruct Hs as [Hv0|Hv0]; [destruct (Hok eq_refl Hv0) as (H2 & H3 & _); split; [right; right; exact H2|left; exact H3]|].
+        all: exfalso; destruct (accepted_answered _ _ _ _ H1 eq_refl) as (e & _ & Hr);
+          pose proof (sem_res_unit f e (CLink v dst)) as Hu; change (snd (sem f e (CLink v dst)) = ROk \/ exists er, snd (sem f e (CLink v dst)) = RErr er) in Hu;
+          destruct Hu as [Hu|(er & Hu)]; try congruence; destruct (link_effect f e v dst Hv Hdp Hu) as (_ & Hn & _); contradiction.
+    - destruct (pcls d name v s c) eqn:Hc; [|discriminate]. injection Hm as <-. exact (class_step s c r f f' Hc H1 HI).
+  Qed.
+
+  (** At EVERY crash point of a plain set or put (the process dies before any one of
+      its calls), with a fault injected anywhere before: the key's name is bound
+      to what it was bound to, to nothing (maintenance evicted it), or to the
+      inode the source named -- never to anything else.  Publication is atomic. *)
+  Theorem crash_anywhere_is_atomic (which : bool) w o n : names_plain (w_fs w) ->
+    name_of (w_fs w) v = Some i0 -> name_of (w_fs w) dst = j0 ->
+    let '(w', _, _, _) := run_crash (if which then cd_set d name v else cd_put d name v) w o n in
+    name_of (w_fs w') dst = j0 \/ name_of (w_fs w') dst = None \/ name_of (w_fs w') dst = Some i0.
+  Proof.
+    intros Hpl Hv0 Hj.
+    assert (HI0 : at_inv Before (w_fs w)) by (cbn [at_inv]; auto).
+    destruct which.
+    - pose proof (sane_crash pr_step (cd_set d name v) _ Before at_inv pr_cd_set pr_at_step w o n Hpl HI0) as H.
+      destruct (run_crash (cd_set d name v) w o n) as [[[w' o'] tr] b]. destruct H as (s' & HI & _).
+      destruct s'; cbn [at_inv] in HI; tauto.
+    - pose proof (sane_crash (pp_step d name v) (cd_put d name v) _ Before at_inv (pp_cd_put d name v Hbase Hname Hv Hout Hnanc) pp_at_step w o n Hpl HI0) as H.
+      destruct (run_crash (cd_put d name v) w o n) as [[[w' o'] tr] b]. destruct H as (s' & HI & _).
+      destruct s'; cbn [at_inv] in HI; tauto.
+  Qed.
+End Atomic.
